@@ -94,6 +94,7 @@ type flatShape struct {
 	Text  string
 	Style map[string]any // stroke fill (string) width (float) dash ([]float64) cap; text: family size weight fstyle ls align baseline
 	Elem  string
+	Arc   bool // an ellipse given as an arc path: start/end are angles in user space
 }
 
 const svgNS = "http://www.w3.org/2000/svg"
@@ -327,6 +328,12 @@ func (f *flattener) walk(n *xnode, inh map[string]string) {
 				}
 			}
 		}
+	case "path":
+		// the only path understood: one elliptical arc "M x1 y1 A rx ry rot large sweep x2 y2"
+		// (an ellipse with start and end angles); anything else is unsupported
+		if !f.arcPath(n, &sh) {
+			sh.Kind = "unsupported:path"
+		}
 	case "polyline", "polygon":
 		sh.Kind = "poly"
 		pts, err := numList(n.Attr["points"])
@@ -351,6 +358,72 @@ func (f *flattener) walk(n *xnode, inh map[string]string) {
 		sh.Kind = "unsupported:" + n.Name
 	}
 	f.shapes = append(f.shapes, sh)
+}
+
+var reArc = regexp.MustCompile(`^\s*[Mm]([^AaZz]*)A([^Zz]*)$`)
+
+// arcPath recovers centre, radii, tilt and the start/end angles of a single
+// elliptical arc (SVG implementation notes F.6.5, end point to centre
+// parametrisation). Angles are measured in user space (y down), i.e.
+// clockwise on screen, like the canvas API.
+func (f *flattener) arcPath(n *xnode, sh *flatShape) bool {
+	m := reArc.FindStringSubmatch(n.Attr["d"])
+	if m == nil {
+		return false
+	}
+	p0, err0 := numList(m[1])
+	a, err1 := numList(m[2])
+	if err0 != nil || err1 != nil || len(p0) != 2 || len(a) != 7 {
+		return false
+	}
+	x1, y1 := p0[0], p0[1]
+	rx, ry, phi := math.Abs(a[0]), math.Abs(a[1]), a[2]*math.Pi/180
+	fa, fs := a[3] != 0, a[4] != 0
+	x2, y2 := a[5], a[6]
+	if rx == 0 || ry == 0 {
+		return false
+	}
+	cosp, sinp := math.Cos(phi), math.Sin(phi)
+	dx, dy := (x1-x2)/2, (y1-y2)/2
+	x1p := cosp*dx + sinp*dy
+	y1p := -sinp*dx + cosp*dy
+	if l := x1p*x1p/(rx*rx) + y1p*y1p/(ry*ry); l > 1 {
+		rx *= math.Sqrt(l)
+		ry *= math.Sqrt(l)
+	}
+	num := rx*rx*ry*ry - rx*rx*y1p*y1p - ry*ry*x1p*x1p
+	den := rx*rx*y1p*y1p + ry*ry*x1p*x1p
+	fac := 0.0
+	if den != 0 && num > 0 {
+		fac = math.Sqrt(num / den)
+	}
+	if fa == fs {
+		fac = -fac
+	}
+	cxp := fac * rx * y1p / ry
+	cyp := fac * -ry * x1p / rx
+	cx := cosp*cxp - sinp*cyp + (x1+x2)/2
+	cy := sinp*cxp + cosp*cyp + (y1+y2)/2
+	ang := func(ux, uy, vx, vy float64) float64 {
+		return math.Atan2(ux*vy-uy*vx, ux*vx+uy*vy) * 180 / math.Pi
+	}
+	th1 := ang(1, 0, (x1p-cxp)/rx, (y1p-cyp)/ry)
+	dth := ang((x1p-cxp)/rx, (y1p-cyp)/ry, (-x1p-cxp)/rx, (-y1p-cyp)/ry)
+	if !fs && dth > 0 {
+		dth -= 360
+	} else if fs && dth < 0 {
+		dth += 360
+	}
+	sh.Kind = "ellipse"
+	sh.Geom["x"] = ux(cx)
+	sh.Geom["y"] = uy(cy)
+	sh.Geom["rx"] = ul(rx)
+	sh.Geom["ry"] = ul(ry)
+	sh.Geom["tilt"] = math.Abs(a[2])
+	sh.Geom["start"] = th1
+	sh.Geom["end"] = th1 + dth
+	sh.Arc = true
+	return true
 }
 
 // style converts resolved SVG properties to the Evy pen style.
